@@ -262,6 +262,16 @@ func (v *VerifCluster) ForceState(s string) {
 	v.c.mu.Unlock()
 }
 
+// MergeClusterStatus is cluster.mergeClusterStatus with a ClusterStatus made of the
+// given state and nodes (what a non-coordinator receives from the coordinator, e.g. at
+// the end of a resize).
+func (v *VerifCluster) MergeClusterStatus(state string, nodes []*Node) error {
+	return v.c.mergeClusterStatus(&ClusterStatus{ClusterID: v.c.id, State: state, Nodes: nodes})
+}
+
+// SetPath sets cluster.Path (directory of the .topology file).
+func (v *VerifCluster) SetPath(path string) { v.c.Path = path }
+
 // CleanHolder is holderCleaner.CleanHolder for the given node and holder.
 func (v *VerifCluster) CleanHolder(self *Node, h *Holder) error {
 	var cl holderCleaner
